@@ -394,7 +394,12 @@ Definition mstep (mco ecma : bool) (t : ptree) (st : mstate) (tok : gtok) : res 
         else if ecma then Err e_invalid_ecma_name
         else
           do o' <- ostep MainPass (m_o st) tok ;
-          if is_slot t n then
+          if mco && negb (n =? 0) then                             (* the pre-scan filed the digits as a name *)
+            if is_name t (itoa n) then
+              let k := slot_from_name t (itoa n) in
+              Ok (gopen o' false false (consume_slot mco k (m_autocap st)) st, ICapture k)
+            else Err e_unrecognized_grouping
+          else if is_slot t n then
             if n =? 0 then Err e_capnum_zero
             else Ok (gopen o' false false (consume_slot mco n (m_autocap st)) st, ICapture n)
           else Err e_unrecognized_grouping
